@@ -262,6 +262,23 @@ def check_misc(_):
     return None
 
 
+def check_own_attribute_names(case):
+    """names that are plain attributes of the Module / Bundle object itself and are not protected: an object add()ed
+    under one of them must either be refused or be what attribute access returns"""
+    import hdl21 as h
+    target, nm = case
+    m = h.Module(name="M") if target == "module" else h.Bundle(name="Bn")
+    v = h.Signal()
+    try:
+        m.add(v, name=nm)
+    except RuntimeError:
+        return None
+    if m.get(nm) is v and getattr(m, nm, None) is not v:
+        return (f"own-attribute-name/{target}.{nm}", f"{target}: add(name={nm!r}) accepted; get({nm!r}) is the signal, "
+                                                     f"attribute access gives {getattr(m, nm, None)!r}", {"case": repr(case)})
+    return None
+
+
 def run(ctx):
     thorough = ctx.tier == "thorough"
     eng = cm.engine()
@@ -288,6 +305,11 @@ def run(ctx):
              "distinct = distinct history; non-trivial = some name used twice",
         bound=f"length<={L}, 3 names", key_of=repr,
         nontrivial=lambda c: len({n for _, n, _ in c[1]}) < len(c[1]))
+    ctx.run_bounded("own-attribute-names", [("module", "name"), ("bundle", "name"), ("bundle", "roles"), ("module", "desc"),
+                                            ("bundle", "desc")],
+                    lambda c: (lambda r: None if r is None else (f"hdl21.{c[0]}:{r[0]}", r[1], r[2]))(check_own_attribute_names(c)),
+                    rule="add() under a name that is an unprotected plain attribute of the object itself",
+                    bound="5 (object, name) pairs", key_of=repr)
     ctx.run_bounded("misc-rejections", [0], lambda c: (lambda r: None if r is None else
                     (f"hdl21.module:misc/{r[0]}", r[1], {"case": "misc"}))(check_misc(c)),
                     rule="sub-classing, post-elaboration additions, class-style vs procedural definition",
